@@ -369,6 +369,82 @@ def oracle(ctx):
                          {"impl": g2.tolist(), "reference": r2.tolist()}, "agree to %g" % tol2)
         elif not torch.isfinite(g2).all():
             ctx.fail("oracle", "symeig-grad:second-order:%s:degenerate:nonfinite" % method, info, g2.tolist(), "finite")
+    # ---- a close but distinct pair at a small scale: the degeneracy threshold is atol + rtol |e| with atol = eps^0.6 << rtol =
+    #      eps^0.4 (seeded defect C06/4: the two exponents swapped - invisible when |e| ~ 1) ----
+    for rep in range(ctx.n(4, 16)):
+        g = gen(rng)
+        n = rng.randrange(3, 6)
+        spec = torch.tensor([1e-3, 1e-3 + 2e-7, 2e-3, 3.5e-3, 5e-3][:n], dtype=DT)
+        method = ["custom_exacteig", "exacteig", "davidson"][rep % 3]
+        A0, _ = planted(g, n, spec, (), DT, False)
+        Ad = herm(torch.randn(2, n, n, dtype=DT, generator=g)) * 1e-3
+        ce = torch.randn(2, dtype=DT, generator=g)
+        Cm = herm(torch.randn(n, n, dtype=DT, generator=g))
+        outs = []
+        for which in ("impl", "ref"):
+            th = torch.zeros(2, dtype=DT, requires_grad=True)
+            Am = A0 + (th.reshape(2, 1, 1) * Ad).sum(0)
+            with warnings.catch_warnings():
+                warnings.simplefilter("ignore")
+                if which == "impl":
+                    e_, X_ = symeig(xt.LinearOperator.m(Am, is_hermitian=True), 2, "lowest", method=method,
+                                    **({"min_eps": 1e-12} if method == "davidson" else {}))
+                else:
+                    e_, X_ = dense_pairs(Am, None, 2, True)
+                # a loss that tells the two vectors of the pair apart (they are NOT degenerate)
+                L_ = (ce * e_).sum() * 1e3 + (Cm * (X_[:, :1] @ X_[:, :1].T)).sum()
+                outs.append(torch.autograd.grad(L_, th)[0])
+        ctx.count(("close-pair", rep, n, method), nontrivial=True)
+        sc = 1 + float(outs[1].abs().max())
+        if not torch.isfinite(outs[0]).all() or float((outs[0] - outs[1]).abs().max()) > 1e-4 * sc:
+            ctx.fail("oracle", "symeig-grad:close-pair-at-small-scale:%s" % method,
+                     {"spectrum": spec.tolist(), "method": method, "n": n, "generator_seed": g.initial_seed()},
+                     {"impl": outs[0].tolist(), "reference": outs[1].tolist()}, "agree to 1e-4 (the pair is separated by 200 thresholds)")
+    # ---- exactly diagonal operators, partial spectrum: the shifted systems are exactly singular and the exact solver retries
+    #      with a small diagonal shift (seeded defect C06/5: the retry lost the eigenvalue shift) ----
+    for kind in ("dense", "mf"):
+        for useM_ in (False, True):
+            outs = []
+            for which in ("impl", "ref"):
+                Adg = torch.diag(torch.tensor([1.0, 2.0, 3.0, 5.0], dtype=DT)).requires_grad_()
+                Mdg = torch.diag(torch.tensor([1.0, 2.0, 1.0, 0.5], dtype=DT)).requires_grad_() if useM_ else None
+                mk = (lambda t: xt.LinearOperator.m(t, is_hermitian=True)) if kind == "dense" else MFP
+                Cd = herm(torch.randn(4, 4, dtype=DT, generator=torch.Generator().manual_seed(1)))
+                with warnings.catch_warnings():
+                    warnings.simplefilter("ignore")
+                    if which == "impl":
+                        e_, X_ = symeig(mk(Adg), 2, "lowest", mk(Mdg) if useM_ else None, method="custom_exacteig")
+                    else:
+                        e_, X_ = dense_pairs(Adg, Mdg, 2, True)
+                    P_ = X_ @ X_.T
+                    P_ = P_ @ Mdg if useM_ else P_
+                    L_ = (e_ * torch.tensor([0.3, -0.7], dtype=DT)).sum() + (Cd * P_).sum()
+                    gr = torch.autograd.grad(L_, (Adg, Mdg) if useM_ else (Adg,))
+                outs.append([herm(t) for t in gr])
+            ctx.count(("diagonal-partial", kind, useM_), nontrivial=True)
+            if any(float((a_ - b_).abs().max()) > 1e-8 for a_, b_ in zip(*outs)):
+                ctx.fail("oracle", "symeig-grad:exactly-diagonal-partial-spectrum", {"A": "diag(1,2,3,5)", "M": useM_, "operator": kind, "neig": 2},
+                         [float((a_ - b_).abs().max()) for a_, b_ in zip(*outs)], "agrees with the dense reference")
+    # ---- the backward pass uses the parameters SAVED by the forward pass, whatever happened to the operator object since
+    #      (seeded defect C06/6: the solve of the backward ran with the object's current parameters) ----
+    g = gen(rng)
+    A1 = rsym(g, 5, (), DT).requires_grad_()
+    A2 = rsym(g, 5, (), DT)
+    Cr = herm(torch.randn(5, 5, dtype=DT, generator=g))
+    outs = []
+    for reuse in (False, True):
+        op = MFP(A1)
+        with warnings.catch_warnings():
+            warnings.simplefilter("ignore")
+            e_, X_ = symeig(op, 2, "lowest", method="custom_exacteig")
+            L_ = e_.sum() + (Cr * (X_ @ X_.T)).sum()
+            if reuse:
+                op.a = A2                                  # the caller re-uses the operator object for another matrix
+            outs.append(herm(torch.autograd.grad(L_, A1)[0]))
+    ctx.count(("operator-reused-before-backward",), nontrivial=True)
+    if float((outs[0] - outs[1]).abs().max()) > 1e-9:
+        ctx.fail("oracle", "symeig-grad:operator-reused-before-backward", {"method": "custom_exacteig", "n": 5, "neig": 2},
+                 float((outs[0] - outs[1]).abs().max()), "the gradient is that of the matrix the forward pass saw")
     # ---- finding F30: exactly representable eigenpairs (a diagonal, non-degenerate matrix) ----
     Ad_ = torch.diag(torch.tensor([1.0, 2.0, 3.0], dtype=DT)).requires_grad_()
     ctx.count(("F30-probe",))
